@@ -1,0 +1,39 @@
+//go:build verif
+
+package filter
+
+// Contracts for the deductive verifier in /verif (govc). Only compiled with -tags verif.
+// The filter as a whole (callbacks into the k-mer index, the circular tube array over a whole run, the external
+// sort) is outside the verifier's reach; what is proved is the arithmetic the completeness argument rests on.
+
+// The q-gram lemma threshold: two windows of length n with at most e differences share at least n+1-k(e+1) k-mers.
+//@ func MinWordsPerFilterHit
+//@   property C14
+//@   pure
+//@   ensures result == hitLength + 1 - wordLength * (maxErrors + 1)
+
+// A k-mer hit at target t and query q lies on diagonal index |target| - t + q ...
+//@ func (*Filter).diagIndex
+//@   property C14
+//@   requires f != nil && f.target != nil
+//@   ensures result == len(f.target.Seq) - t + q
+//@   assigns nothing
+
+// ... and tubes are blocks of tubeOffset consecutive diagonal indices.
+//@ func (*Filter).tubeIndex
+//@   property C14
+//@   requires f != nil && f.tubeOffset > 0 && d >= 0
+//@   ensures result * f.tubeOffset <= d && d < (result + 1) * f.tubeOffset
+//@   assigns nothing
+
+// hitTube: one k-mer hit either extends the run of hits counted in the tube's slot or starts a new run
+// (after reporting the old one when it reached the threshold).
+//@ func (*Filter).addHit
+//@   trusted
+//@   assigns fresh
+//@ func (*Filter).hitTube
+//@   property C14
+//@   requires f != nil && len(f.tubes) > 0 && len(f.tubes) == cap(f.tubes) && tubeIndex >= 0
+//@   ensures [extends] result == nil && old(f.tubes[tubeIndex % len(f.tubes)].Count) > 0 && q - old(f.tubes[tubeIndex % len(f.tubes)].QHi) <= f.maxKmerDist ==> f.tubes[tubeIndex % len(f.tubes)].Count == old(f.tubes[tubeIndex % len(f.tubes)].Count) + 1 && f.tubes[tubeIndex % len(f.tubes)].QLo == old(f.tubes[tubeIndex % len(f.tubes)].QLo) && f.tubes[tubeIndex % len(f.tubes)].QHi == q
+//@   ensures [restarts] result == nil && (old(f.tubes[tubeIndex % len(f.tubes)].Count) == 0 || q - old(f.tubes[tubeIndex % len(f.tubes)].QHi) > f.maxKmerDist) ==> f.tubes[tubeIndex % len(f.tubes)].Count == 1 && f.tubes[tubeIndex % len(f.tubes)].QLo == q && f.tubes[tubeIndex % len(f.tubes)].QHi == q
+//@   assigns f.tubes[*], fresh
